@@ -140,7 +140,7 @@ theorem idxGet_eq_some {ix : List (SessKey × List Nat)} (h : (ix.map (·.1)).No
     have := (find?_key_eq_some (f := fun p : SessKey × List Nat => p.1) (k := k) h).2 ⟨hm, rfl⟩
     rw [this]; rfl
 
-theorem Dealer.idxGet_eq_none {ix : List (SessKey × List Nat)} {k} :
+theorem didxGet_eq_none {ix : List (SessKey × List Nat)} {k} :
     idxGet ix k = none ↔ ∀ p ∈ ix, p.1 ≠ k := by
   unfold idxGet
   rw [Option.map_eq_none_iff]
@@ -153,7 +153,7 @@ theorem mem_idxIds {ix : List (SessKey × List Nat)} (h : (ix.map (·.1)).Nodup)
   | none =>
     simp only [Option.getD_none, List.not_mem_nil, false_iff]
     rintro ⟨ids, hm, _⟩
-    exact Dealer.idxGet_eq_none.1 hg _ hm rfl
+    exact didxGet_eq_none.1 hg _ hm rfl
   | some ids =>
     simp only [Option.getD_some]
     have := (idxGet_eq_some h).1 hg
@@ -179,7 +179,7 @@ theorem idxAdd_ok {ix : List (SessKey × List Nat)} (h : IdxOk ix) (k : SessKey)
   cases hg : idxGet ix k with
   | none =>
     simp only
-    have hn := Dealer.idxGet_eq_none.1 hg
+    have hn := didxGet_eq_none.1 hg
     refine ⟨nodup_map_append_singleton _ h.keys (fun x hx => hn x hx), ?_⟩
     intro p hp
     rcases List.mem_append.1 hp with hp | hp
@@ -214,7 +214,7 @@ theorem mem_idxIds_idxAdd {ix : List (SessKey × List Nat)} (h : IdxOk ix) {k k'
   unfold idxAdd
   cases hg : idxGet ix k with
   | none =>
-    have hn := Dealer.idxGet_eq_none.1 hg
+    have hn := didxGet_eq_none.1 hg
     simp only [List.mem_append, List.mem_singleton, Prod.mk.injEq]
     constructor
     · rintro ⟨ids, (hm | ⟨rfl, rfl⟩), hx⟩
